@@ -181,9 +181,12 @@ def check_job(r, V):
                                  lost_fraction_total=float(1 - prod.sum() / want.sum()) if want.sum() else None),
                     "outdoor production is truncated to whole billions of kcal")
     gh = r.series["greenhouse_crops"]
-    if has_gh and gh.any():
-        V.check("no_quantisation", r.raw_dtype["greenhouse_crops"].startswith("float") and not c08.on_integer_lattice(gh[gh > 0]),
-                {"series": "greenhouse_crops", "kind": "integer_lattice", "branch": branch}, lambda: _wit(r, head=core.jsonable(gh[:12])),
+    if has_gh and gh.size == n and not c08.on_integer_lattice(ref["greenhouse_crops"]):
+        # comparative, like the outdoor clause: the series sits on the integer lattice although the documented
+        # value does not (values below 1e-9 of a billion kcal count as zero on either side)
+        V.check("no_quantisation", r.raw_dtype["greenhouse_crops"].startswith("float") and not c08.on_integer_lattice(gh),
+                {"series": "greenhouse_crops", "kind": "integer_lattice", "branch": branch},
+                lambda: _wit(r, head=core.jsonable(gh[:12]), documented_head=core.jsonable(ref["greenhouse_crops"][:12])),
                 "greenhouse production is quantised")
     return has_gh or relocation
 
